@@ -6,6 +6,7 @@ import (
 	"errors"
 	"fmt"
 	"io"
+	"log"
 	"net"
 	"os"
 	"time"
@@ -71,6 +72,9 @@ type Conn struct {
 
 	rdl    time.Time
 	closed bool
+
+	acceptedByServer bool // handed out by Listener.Accept
+	acceptStep       int
 
 	// knobs
 	Latency      func() time.Duration // per write; nil = 0
@@ -470,6 +474,8 @@ func (l *Listener) Accept() (net.Conn, error) {
 	}
 	c := l.queue[0]
 	l.queue = l.queue[1:]
+	c.acceptedByServer = true
+	c.acceptStep = s.Step
 	s.logLocked("accept %s", c.Name)
 	s.mixFP("acc")
 	return c, nil
@@ -499,4 +505,11 @@ func (l *Listener) IsClosed() bool {
 	l.sim.mu.Lock()
 	defer l.sim.mu.Unlock()
 	return l.closed
+}
+
+// silenceLog discards output of package log (the server's default OnErrorFunc) for the duration of a run.
+func silenceLog() func() {
+	old := log.Writer()
+	log.SetOutput(io.Discard)
+	return func() { log.SetOutput(old) }
 }
